@@ -300,8 +300,14 @@ def run_unit(spec, unit, scratch, tier="quick", trace=False):
     # loop-contract presence guard
     need = contracted_loops(spec, unit, scratch)
     steps = [n for n in names if "loop_invariant_step" in n]
+    # a `for (;;)` head carries no source location in goto-cc output: DFCC then
+    # leaves that loop's >= 4 assertions (base, assigns, step, step unwinding)
+    # unnamed: "<fn>_wrapped_for_contract_checking.N" / description "assertion"
+    unnamed = [r for r in results if re.match(r'^\w+\.\d+$', r.get("property", ""))
+               and r.get("description", "") == "assertion"
+               and not r.get("property", "").startswith("__CPROVER")]
     res["loops_closed_by_invariant"] = len(need)
-    if len(need) and len(steps) < len(need):
+    if len(need) and len(steps) + len(unnamed) // 4 < len(need):
         res["reason"] = "loop contracts missing from obligations (%d step obligations for %d contracted loops)" % (len(steps), len(need))
         return res
     res["samples"] = [{"obligation": r.get("property"), "description": r.get("description"),
